@@ -353,3 +353,27 @@ def read_wrap_logs(engine, kernels):
                             "key": f"{int(keys[c, i, 0])}:{int(keys[c, i, 1])}"})
             out[(c, ki)] = evs
     return out
+
+
+class ProbeQG:
+    """Quantity generator that reports what it was given: the (min over elements of the)
+    values of all kernel keys, the epoch's time / time_in_epoch and its PRNG key."""
+
+    error_book = {0: "no errors"}
+
+    def __init__(self, identifier, all_keys):
+        self.identifier = identifier
+        self.all_keys = tuple(all_keys)
+        self._model = None
+
+    def set_model(self, model):
+        self._model = model
+
+    def has_model(self):
+        return self._model is not None
+
+    def generate(self, prng_key, model_state, epoch):
+        pos = self._model.extract_position(self.all_keys, model_state)
+        return {"seen": jnp.stack([jnp.min(jnp.asarray(pos[k], jnp.float32)) for k in self.all_keys]),
+                "tie": jnp.asarray(epoch.time_in_epoch, jnp.int32), "time": jnp.asarray(epoch.time, jnp.int32),
+                "key": jnp.asarray(prng_key, jnp.uint32).reshape(2)}
